@@ -442,7 +442,7 @@ func runC19Seq(ch *core.Chooser, env *Env, out *Outcome) *Outcome {
 	big := ch.Intn("c19.big", 40) == 39
 	bigN := 0
 	if big {
-		bigN = 8500 + ch.Intn("c19.bign", 3000)
+		bigN = []int{8500, 8500, 12000, 20000, 36000}[ch.Intn("c19.bigsize", 5)] + ch.Intn("c19.bign", 3000)
 		var b strings.Builder
 		for i := 0; i < bigN; i++ {
 			fmt.Fprintf(&b, "||b%d.example.org^\n", i)
